@@ -1,14 +1,8 @@
 """C01 — Cascade walk: each live parent exactly once, only after all its live children."""
 PROPERTY = "C01"
 LEVEL = "other"
-CONTRACT_MODULES = ["contracts.specfuns", "contracts.lemmas_desc", "contracts.pyramid", "contracts.parallel", "contracts.walk", "contracts.reducer", "contracts.progressc"]
-FUNCTIONS = [
-    "toasty.pyramid.Pyramid.walk",
-    "toasty.pyramid.Pyramid._walk_serial",
-    "toasty.pyramid.Pyramid._walk_parallel",
-    "toasty.pyramid._mp_walk_worker",
-    "toasty.progress.progress_bar",
-]
+CONTRACT_MODULES = ['contracts.specfuns', 'contracts.lemmas_desc', 'contracts.pyramid', 'contracts.parallel', 'contracts.walk', 'contracts.reducer', 'contracts.progressc', 'contracts.image', 'contracts.merge', 'contracts.pyramidio', 'contracts.study', 'contracts.paths', 'contracts.multitan', 'contracts.toastsample', 'contracts.datarange', 'contracts.builderc', 'contracts.lemmas_embed', 'contracts.generator', 'contracts.toastgeom', 'contracts.toastgen', 'contracts.multiwcs']
+FUNCTIONS = ['toasty.pyramid.Pyramid.walk', 'toasty.pyramid.Pyramid._walk_serial', 'toasty.pyramid.Pyramid._walk_parallel', 'toasty.pyramid._mp_walk_worker', 'toasty.progress.progress_bar', 'toasty.merge.cascade_images', 'toasty.pyramid.Pyramid._generator', 'toasty.pyramid.Pyramid.subpyramid', 'toasty.pyramid._make_position_filter']
 LEMMAS = ["desc_child_step", "desc_child_pair", "desc_siblings_disjoint", "desc_levels", "desc_transitive", "desc_root"]
 SLOW = ()
 TRUSTED_BASE = [
